@@ -662,3 +662,40 @@ func readOnlyView(sl *ssa.Slice) bool {
 	}
 	return true
 }
+
+// countedLoopIncl: p is `i` of `for i := k; i <= B; i++` (inclusive bound); returns k and B.
+func countedLoopIncl(p *ssa.Phi) (int64, ssa.Value, bool) {
+	if len(p.Edges) != 2 || p.Comment == "rangeindex" {
+		return 0, nil, false
+	}
+	var init int64
+	hasInit, step := false, false
+	for _, e := range p.Edges {
+		switch x := e.(type) {
+		case *ssa.Const:
+			if x.Value != nil && x.Value.Kind() == constant.Int {
+				init, hasInit = x.Int64(), true
+			}
+		case *ssa.BinOp:
+			if x.Op == token.ADD && x.X == ssa.Value(p) {
+				if k, ok := x.Y.(*ssa.Const); ok && k.Value != nil && k.Value.ExactString() == "1" {
+					step = true
+				}
+			}
+		}
+	}
+	if !hasInit || !step {
+		return 0, nil, false
+	}
+	blk := p.Block()
+	iff, ok := blk.Instrs[len(blk.Instrs)-1].(*ssa.If)
+	if !ok {
+		return 0, nil, false
+	}
+	cmp, ok := iff.Cond.(*ssa.BinOp)
+	if !ok || cmp.Op != token.LEQ || cmp.X != ssa.Value(p) {
+		return 0, nil, false
+	}
+	// no other definition of i inside the loop: the phi's only non-constant edge is i+1
+	return init, cmp.Y, true
+}
